@@ -195,7 +195,9 @@ def side_case(seed):
                 return 'pair %d: %d eigenvalues returned, matrix EDMD keeps rank %d' % (i, len(ev), k), desc
             ref = np.linalg.eigvals(K)
             ref = ref[np.argsort(-np.abs(ref))]
-            nz = [r_ for r_ in ref if abs(r_) > 1e-8]
+            # a defective zero eigenvalue of multiplicity k is computed as a ring of radius ~ eps^(1/k): only eigenvalues clearly
+            # away from zero are matched one by one; the rest must be small on both sides
+            nz = [r_ for r_ in ref if abs(r_) > 1e-3]
             scale = 1 + max([abs(r_) for r_ in ref] + [0])
             rem = list(ev)
             # every non-zero EDMD eigenvalue's real part is among the returned ones
@@ -214,9 +216,9 @@ def side_case(seed):
                 pool.pop(j)
             reals = sorted(np.real(ref))
             sep = min([b_ - a_ for a_, b_ in zip(reals, reals[1:]) if b_ - a_ > 1e-9 * scale] + [1.0])
-            if sep > 1e-5 * scale and np.any(np.diff(dists) < -1e-7 * scale):
+            if sep > 1e-5 * scale and np.any(np.diff(dists) < -1e-4 * scale):
                 return 'pair %d: eigenvalues not ordered by |lambda - 1| of the complex eigenvalues: %s (distances %s)' % (i, ev, dists), desc
-            if any(abs(e_) > 1e-6 * scale for e_ in rem):
+            if any(abs(e_) > 2e-3 * scale for e_ in rem):
                 return 'pair %d: returned eigenvalues %s beyond the non-zero EDMD spectrum' % (i, rem), desc
             # ordered by distance to 1 (on the complex eigenvalues; decidable here when the spectrum is real)
             if np.max(np.abs(np.imag(ref))) < 1e-10:
